@@ -1,7 +1,8 @@
 (* C04 -- conflicting NPU/DMA accesses are always separated by a wait or block dependency.
    Statements only. *)
 From Coq Require Import ZArith List Bool.
-From VV Require Import hw.Queues model.Waits model.RangeSet proofs.QueuesProofs proofs.WaitsProofs proofs.RangeSetProofs.
+From VV Require Import gen.GenTables hw.Npu hw.Queues hw.Hazard model.Waits model.RangeSet model.Blockdep
+  proofs.QueuesProofs proofs.WaitsProofs proofs.RangeSetProofs proofs.BlockdepProofs proofs.HazardProofs.
 Import ListNotations.
 Open Scope Z_scope.
 
@@ -62,9 +63,94 @@ Theorem access_set_add :
     (forall k a, writes (ma_add x m w) k a <-> writes x k a \/ (w = true /\ mrs_has m k a)).
 Proof. exact access_set_add_lemma. Qed.
 
+(* calc_blockdep's double loop over ABSTRACT job volumes (first_job f = input volume of the f-th job
+   of the consumer, prev_job b = output volume of the b-th last block of the producer, meets = the
+   intersection test, maxdep = MAX_BLOCKDEP): the result k never exceeds MAX_BLOCKDEP and for all
+   f, b with f + b < k job f does not intersect the b-th last previous block *)
+Theorem blockdep_sound :
+  forall (area : Type) (first_job prev_job : Z -> option area) (meets : area -> area -> bool) (maxdep : Z),
+    let k := blockdep_loop area first_job prev_job meets maxdep in
+    k <= maxdep /\
+    forall f b ia oa,
+      0 <= f -> 0 <= b -> f + b < k ->
+      (forall g, 0 <= g <= f -> first_job g <> None) ->
+      first_job f = Some ia -> prev_job b = Some oa -> meets ia oa = false.
+Proof. exact blockdep_loop_sound. Qed.
+
+(* the same for the concrete geometry of calc_blockdep (get_first_job_input_volume,
+   get_prev_job_output_volume, intersects), where the prefix condition on job volumes is proved *)
+Theorem blockdep_sound_concrete :
+  forall ar p c fm ibd,
+    0 < round_up_divide (fm_d (co_ifm c)) ibd ->
+    let k := blockdep_core ar p c fm ibd in
+    k <= ar_maxdep ar /\
+    forall f b ia oa,
+      0 <= f -> 0 <= b -> f + b < k ->
+      get_first_job_input_volume ar c ibd f = Some ia ->
+      get_prev_job_output_volume p b = Some oa ->
+      intersects fm ia (po_ofm p) oa = false.
+Proof. exact blockdep_core_sound. Qed.
+
+(* calc_blockdep returns 0 (early exits), MAX_BLOCKDEP (the producer's OFM overlaps neither
+   operand's bounding ranges) or the loop result for the overlapping operand *)
+Theorem calc_blockdep_result :
+  forall ar p c k,
+    calc_blockdep ar (Some p) c = Some k ->
+    k = 0 \/ k = ar_maxdep ar \/
+    exists fm ibd, (fm = co_ifm c \/ fm = co_ifm2 c) /\ get_ifm_ofm_block_depth ar c = Some ibd /\
+                   k = blockdep_core ar p c fm ibd.
+Proof. exact calc_blockdep_cases. Qed.
+
+Theorem calc_blockdep_zero :
+  forall ar p c,
+    (calc_blockdep ar None c = Some 0) /\
+    (po_lut p = true -> ar_reserved_unused ar = 0 -> co_lut c = false -> calc_blockdep ar (Some p) c = Some 0).
+Proof. exact calc_blockdep_zero_cases. Qed.
+
+(* D2, the validator run on every decoded stream.  If check_hazards accepts the events then
+   (1) replaying the stream in the queue machine (every EOp issued to its queue with the exact
+       footprint of Npu.op_footprint, KERNEL_WAIT / DMA_WAIT as waits, the accelerator's outstanding
+       limits), in EVERY reachable state no kernel operation and DMA operation that are unfinished
+       together share a byte one of them writes (RAW / WAR / WAW; external memory or SHRAM);
+   (2) for all consecutive kernel operations A ; B with no KERNEL_WAIT 0 between them:
+       BLOCKDEP_B = 0, or for all f, b with f + b < BLOCKDEP_B no byte read by job f of B is written
+       by the b-th last block of A (block traversal of hw/Hazard.v, element addresses through
+       tiles / strides / bricks), B's weight / scale reads avoid A's OFM and B does not overwrite
+       the SHRAM bytes A reads its LUT from. *)
+Theorem check_hazards_sound :
+  forall c evs,
+    check_hazards c evs = true ->
+    (forall h rest,
+       qsteps hop h_isdma (hz_max_dma c) (hz_max_kern c) (q_init, hz_prog c evs 0) (h, rest) ->
+       forall k d, In k (q_kern h) -> In d (q_dma h) -> ~ fp_hazard (h_fp k) (h_fp d)) /\
+    (forall pre ca pa ra mid cb pb rb rest,
+       evs = pre ++ EOp ca pa ra :: mid ++ EOp cb pb rb :: rest ->
+       ca <> cmd0_NPU_OP_DMA_START -> cb <> cmd0_NPU_OP_DMA_START -> Forall quiet mid ->
+       blockdep_safe (hz_hw c) (ca, pa, ra) (cb, pb, rb)).
+Proof. exact check_hazards_sound_lemma. Qed.
+
+(* the generic fact both halves rest on: the possibly-unfinished-set simulation of hw/Queues.v is
+   sound for the small-step queue machine, for any operation type and any symmetric hazard relation
+   the conflict test detects *)
+Theorem queue_simulation_sound :
+  forall (op : Type) (is_dma : op -> bool) (max_dma max_kern : Z) (conflict : op -> op -> bool)
+         (hazard : op -> op -> Prop),
+    (forall a b, hazard a b -> hazard b a) ->
+    (forall a b, hazard a b -> conflict a b = true) ->
+    forall p, qcheck op is_dma max_dma max_kern conflict q_init p = true ->
+    forall h p', qsteps op is_dma max_dma max_kern (q_init, p) (h, p') ->
+    forall k d, In k (q_kern h) -> In d (q_dma h) -> ~ hazard k d.
+Proof. exact qcheck_sound. Qed.
+
 Print Assumptions waits_separate.
 Print Assumptions waits_model_invariant.
 Print Assumptions rangeset_intersects_spec.
 Print Assumptions rangeset_or_invariant.
 Print Assumptions conflicts_spec.
 Print Assumptions access_set_add.
+Print Assumptions blockdep_sound.
+Print Assumptions blockdep_sound_concrete.
+Print Assumptions calc_blockdep_result.
+Print Assumptions calc_blockdep_zero.
+Print Assumptions check_hazards_sound.
+Print Assumptions queue_simulation_sound.
